@@ -310,3 +310,89 @@ Proof.
     unfold is_eqne in Hok. unfold cmp_b. destruct op; try discriminate;
       rewrite (Z (w k1) (w k2) _ _ Hc1 Hc2); reflexivity.
 Qed.
+
+(* ------------------------------------------------------------------ enumeration *)
+
+Lemma all_assign_spec : forall kc acc Q, all_assign kc acc Q = true ->
+  forall f : skey -> N, (forall k vs, In (k, vs) kc -> In (f k) vs) ->
+  Q (rev (map (fun p => (fst p, f (fst p))) kc) ++ acc) = true.
+Proof.
+  induction kc as [|[k vs] r IH]; intros acc Q H f Hf; simpl in *.
+  - exact H.
+  - rewrite forallb_forall in H. specialize (H (f k) (Hf k vs (or_introl eq_refl))).
+    specialize (IH _ _ H f (fun k' vs' Hin => Hf k' vs' (or_intror Hin))).
+    rewrite <- app_assoc. simpl. exact IH.
+Qed.
+
+Lemma world_of_fun : forall (l : assign) (f : skey -> N),
+  (forall p, In p l -> snd p = f (fst p)) -> forall k, In k (map fst l) -> world_of l k = f k.
+Proof.
+  induction l as [|[k' v] r IH]; intros f Hl k Hk; [ destruct Hk |].
+  simpl. destruct (skey_eqb k k') eqn:E.
+  - apply skey_eqb_eq in E. subst k'. exact (Hl (k, v) (or_introl eq_refl)).
+  - simpl in Hk. destruct Hk as [Hk|Hk]; [ subst k'; rewrite skey_eqb_refl in E; discriminate |].
+    apply IH; [ intros p Hp; apply Hl; right; exact Hp | exact Hk ].
+Qed.
+
+(* a question that depends on the world only through the atoms A *)
+Definition decides (A : list sval) (Q : world -> bool) : Prop :=
+  forall w w', (forall a, In a A -> truth w a = truth w' a) -> Q w = Q w'.
+
+Theorem engine_sound : forall A Q, check_all A Q = true -> decides A Q -> forall w, Q w = true.
+Proof.
+  intros A Q H Hdec w. unfold check_all in H.
+  destruct (atoms_info A) as [inf|] eqn:E; [| discriminate ].
+  pose proof (atoms_info_mod_nz _ _ E) as Hnz.
+  set (f := fun k => rep inf k (w k)).
+  assert (Hf : forall k vs, In (k, vs) (cand_table inf) -> In (f k) vs).
+  { intros k vs Hin. unfold cand_table in Hin. apply in_map_iff in Hin. destruct Hin as [k0 [Hk0 _]].
+    inversion Hk0; subst. apply rep_in_cands. apply mod_of_nz. exact Hnz. }
+  pose proof (all_assign_spec _ _ _ H f Hf) as HQ. rewrite app_nil_r in HQ.
+  set (l := rev (map (fun p : skey * list N => (fst p, f (fst p))) (cand_table inf))) in HQ.
+  rewrite (Hdec w (world_of l)); [ exact HQ |].
+  intros a Ha. destruct (atoms_info_incl _ _ E a Ha) as [ia [H1 H2]].
+  apply (atom_agree inf a ia w (world_of l) H1 H2 Hnz).
+  intros i Hi. apply (world_of_fun l f).
+  - intros p Hp. unfold l in Hp. apply in_rev in Hp. apply in_map_iff in Hp.
+    destruct Hp as [q [Hq _]]. subst p. reflexivity.
+  - unfold l. rewrite map_rev. apply -> in_rev. rewrite map_map. simpl.
+    unfold cand_table. rewrite map_map. simpl. rewrite map_id.
+    unfold keys_of_info. apply dedup_keys_in. left. apply in_map. apply H2. exact Hi.
+Qed.
+
+(* ------------------------------------------------------------------ questions about trees and formulas *)
+
+Lemma eval_tree_ext : forall t w w', (forall a, In a (tree_atoms t) -> truth w a = truth w' a) ->
+  eval_tree w t = eval_tree w' t.
+Proof.
+  induction t as [r tr|c a IHa b IHb|n]; intros w w' H; simpl; try reflexivity.
+  simpl in H. rewrite <- (H c (or_introl eq_refl)).
+  destruct (truth w c).
+  - apply IHa. intros x Hx. apply H. right. apply in_or_app. left. exact Hx.
+  - apply IHb. intros x Hx. apply H. right. apply in_or_app. right. exact Hx.
+Qed.
+
+Lemma eval_form_ext : forall f w w', (forall a, In a (form_atoms f) -> truth w a = truth w' a) ->
+  eval_form w f = eval_form w' f.
+Proof.
+  induction f as [| |a|g IH|g IHg h IHh|g IHg h IHh]; intros w w' H; simpl in *; try reflexivity.
+  - apply H. left. reflexivity.
+  - rewrite (IH w w' H). reflexivity.
+  - rewrite (IHg w w'), (IHh w w'); [ reflexivity | |]; intros x Hx; apply H; apply in_or_app; auto.
+  - rewrite (IHg w w'), (IHh w w'); [ reflexivity | |]; intros x Hx; apply H; apply in_or_app; auto.
+Qed.
+
+Lemma mkQ_decides : forall t fs G, decides (atomsQ t fs) (mkQ t fs G).
+Proof.
+  intros t fs G w w' H. unfold mkQ, atomsQ in *.
+  rewrite (eval_tree_ext t w w') by (intros a Ha; apply H; apply in_or_app; left; exact Ha).
+  f_equal. apply map_ext_in. intros f Hf. apply eval_form_ext.
+  intros a Ha. apply H. apply in_or_app. right. apply in_flat_map. exists f. split; assumption.
+Qed.
+
+(* the engine: a clean enumeration decides the question in every world *)
+Theorem decide_sound : forall t fs G, decide t fs G = true ->
+  forall w, G (eval_tree w t) (map (eval_form w) fs) = true.
+Proof.
+  intros t fs G H w. exact (engine_sound _ _ H (mkQ_decides t fs G) w).
+Qed.
